@@ -320,6 +320,13 @@ def part_job(ctx, i):
                 'location': 'Hall', 'kind': 'plain', 'color': [k, k, k, 2700],
                 'power': 0} for k in range(n)]
         text = rng.choice([
+            # (nothing is calculated after the early exit in the first three:
+            # whatever the exit leaves behind shows in the *next* run)
+            'repeat all as zz_l begin set zz_l break end set all print 7',
+            'define first begin repeat all as zz_l begin on zz_l return 5 end '
+            'end first off all print 8',
+            'repeat in group "G0" and group "G1" as zz_l begin on zz_l break '
+            'end set all',
             'repeat all as zz_l begin set zz_l break end set all print {{ 1 + 2 }}',
             'define first begin repeat all as zz_l begin on zz_l return 5 end '
             'end print [ first ] off all print {{ 2 * 3 }}',
